@@ -80,6 +80,13 @@ func c03(c *Ctx) {
 	c.Guarded("discover/chksum2", bt, rec, gs(GP("("+u32("[20:]")+" == litefs.WALChecksum(@@)#1)", true)), 1, "a frame is recorded only if checksum-2 equals the running checksum", "")
 	c.walCommitScanPageNonzero("discover")
 	{
+		tw := "litefs.(*DB).TruncateWAL"
+		caches := p.Writes("litefs.DB.wal.frameOffsets", "litefs.DB.wal.chksums")
+		c.Guarded("wal-cache/TruncateWAL/reset-only-for-zero", tw, caches, gs(GP("(0 == p2)", true)), 2, "the WAL caches are reset only by a truncation to zero",
+			"SQLite issues non-zero truncations (journal_size_limit) in the middle of a generation and ignores the refusal: wiping the cached checksums of pages that live in the log makes every later commit take them from the stale database-file copy")
+		c.Guarded("wal-cache/TruncateWAL/reset-only-after-truncation", tw, caches, gs(G(`^\(litefs\.OS\.Truncate\(.*\) == nil\)$|^\(nil == litefs\.OS\.Truncate\(.*\)\)$`, true)), 2, "... and only after the file was truncated", "")
+	}
+	{
 		rfa := `internal\.ReadFullAt\(.*\)#1`
 		notEOF := G(`^\(`+rfa+` == io\.EOF\)$|^\(io\.EOF == `+rfa+`\)$|^errors\.Is\(`+rfa+`, io\.EOF\)$`, false)
 		notUEOF := G(`^\(`+rfa+` == io\.ErrUnexpectedEOF\)$|^\(io\.ErrUnexpectedEOF == `+rfa+`\)$|^errors\.Is\(`+rfa+`, io\.ErrUnexpectedEOF\)$`, false)
